@@ -105,7 +105,16 @@ def Op.operands : Op → List Nat
   | .repeat_ _ i => [i]
   | .sconcat i j => [i, j]
 
+def cellApi : Cell → Option String
+  | some (.num n) => some (toString n)
+  | none => some "_"
+  | _ => none
+
 def Op.api : Op → String
+  | .root k off cs =>
+    (match cs.mapM cellApi with
+     | some xs => s!"r {kindTag k} {off} " ++ " ".intercalate xs
+     | none => "-")
   | .with_ i k at_ (.num n) => s!"w {i} {kindTag k} {at_} {n}"
   | .without i k at_ (.num n) => s!"wo {i} {kindTag k} {at_} {n}"
   | .concat i j => s!"cat {i} {j}"
@@ -256,7 +265,7 @@ def genStep (g : GState) : Gen GState := do
   let fallback : Gen GState := do
     let k ← genKind
     let r ← genRoot k 1
-    pure ((g.push r false).getD g)
+    pure ((g.push r (← chance 1 2)).getD g)
   if seqs.isEmpty || name == "root" then fallback else
   let i ← pickNat seqs
   let some inf := g.info i | fallback
@@ -319,7 +328,8 @@ def genStep (g : GState) : Gen GState := do
   | "join" => do
     let js := g.seqs (some k)
     let j ← pickNat js
-    orElse (g.push (.join i j) false)
+    -- strings / byte arrays: the representation of the result depends on frozen's iteration order (C01/C02 territory)
+    orElse (g.push (.join i j) false (k ≠ .A))
   | "rest" => do
     if k = .A && inf.dense0 && g.mdense i then orElse (g.push (.rest i (← rand (min 3 (inf.len + 1)))) false) else fallback
   | "front" => do
@@ -395,7 +405,7 @@ def genHist (idx : Nat) : Gen (List Case) := do
   for _ in [0:nroots] do
     let k ← genKind
     let r ← genRoot k 2
-    g := (g.push r false).getD g
+    g := (g.push r (← chance 1 2)).getD g
   let steps := 3 + (← rand 10)
   for _ in [0:steps] do
     if g.n < nroots + steps then
